@@ -459,6 +459,8 @@ def f1_f4(ctx, res: Result, ci: ClassInfo) -> CacheModel:
                 if v is None and not any(isinstance(x, (ast.Return, ast.Continue, ast.Break)) for b_ in st.body + st.orelse for x in ast.walk(b_)):
                     continue
                 res_ = ob | oe
+                if v is None:
+                    res_.add("unknown")
                 if v is not False and not st.body:
                     res_.add("next")
                 if v is not True and not st.orelse:
